@@ -975,7 +975,7 @@ def run(ctx: Ctx):
             run_history(ctx, drv, hist + json.loads(json.dumps(bat)), tmp)
             ctx.traces += 1
         # (b) random histories
-        for _ in range(ctx.budget(1000, 25000)):
+        for _ in range(ctx.budget(2500, 25000)):
             n = rng.choice([1, 2, 3, 5, 8, 12, 20, 30])
             hist = gen_history(rng, n)
             muts = [op for op in hist if op["op"] in MUTATING]
